@@ -1263,6 +1263,12 @@ class SymEx:
             return APP(last, val(0), val(1))
         if name.endswith('ops::RangeInclusive::<Idx>::new') and len(args) == 2:
             return STRUCT('RangeInclusive', None, [('start', val(0)), ('end', val(1))])
+        if 'ops::RangeInclusive::<Idx>::' in name and last in ('into_inner', 'start', 'end') and len(args) == 1:
+            r0 = val(0)
+            if isinstance(r0, tuple) and r0[0] == 'struct' and r0[1] == 'RangeInclusive':
+                if last == 'into_inner':
+                    return STRUCT('(tuple)', None, [('0', sfield(r0, 'start')), ('1', sfield(r0, 'end'))])
+                return sfield(r0, last)
         if 'nalgebra' in name or 'Point' in name:
             r = self.model_nalgebra(st, name, last, args, val)
             if r is not None:
